@@ -63,6 +63,9 @@ CHECKS = {
                 "(a PortCredits frame emitted but delivered after further data frames)",
         "assumptions": ["frames decoded by Wire!Dec (independent of remoc's decoder)"],
         "legs": [
+            # unbounded: credit conservation as an inductive invariant for every buffer size (Apalache)
+            dict(kind="custom", fn=legs.apalache_inductive, name="credit_inductive", spec="apalache/Credit.tla",
+                 consequences=["C02_BufferBound", "C02_GrantBound"], deviation_cinit="ConstInitDev"),
             model("ChmuxData_MC_small.cfg", min_states=100000),
             model("ChmuxData_MC_ports.cfg", min_states=10000),
             data_leg("data_cancel", (120, 3000), {"cancel": 1, "ports": 1}, require={r'"b":\[9,': 50, r'"b":\[8,': 10},
